@@ -28,11 +28,26 @@ class Resolver:
     NotImplementedError (unknown package, C10) / whatever a user-supplied package resolver raises"""
     cases = [dict(expression=Str(), resolve_packages=Const(False), replace_time_conditions=Bool()),
              dict(expression=Str(), resolve_packages=Const(True), replace_time_conditions=Bool())]
-    raises = {"SyntaxError": None, "NotImplementedError": "raises_only_with_packages",
-              "Exception": "raises_only_with_packages"}
-    clause_props = {"raises-NotImplementedError": ["C10"], "raises-Exception": ["C10"], "raises-only-declared": ["C02"]}
+    raises = {"SyntaxError": None, "NotImplementedError": "onlyif_packages_are_resolved",
+              "Exception": "onlyif_packages_are_resolved", "ValueError": "onlyif_packages_are_resolved"}
+    clause_props = {"raises-NotImplementedError": ["C02", "C10"], "raises-Exception": ["C02", "C10"],
+                    "raises-ValueError": ["C02", "C10"], "raises-only-declared": ["C02"],
+                    "post_packages_before_time_conditions": ["C10"]}
+    never_raises = ["VisitError"]
 
-    def raises_only_with_packages(expression, resolve_packages, replace_time_conditions):
+    def post_packages_before_time_conditions(expression, resolve_packages, replace_time_conditions, result,
+                                             ghost_ExpandPackages_result, ghost_ExpandTimeConditions_parsed_tree):
+        """time conditions are replaced in the tree that already contains the expanded packages"""
+        if resolve_packages and replace_time_conditions:
+            return ghost_ExpandTimeConditions_parsed_tree is ghost_ExpandPackages_result
+        return True
+
+    def setup(ex, st, values):
+        from pyvc.values import sv_none
+        for g in ("ExpandPackages_result", "ExpandTimeConditions_parsed_tree"):
+            st.ghost[g] = sv_none()
+
+    def onlyif_packages_are_resolved(expression, resolve_packages, replace_time_conditions):
         return resolve_packages
 
     def hook(ex, st, bound):
@@ -41,7 +56,9 @@ class Resolver:
                                    if not z3.is_false(z3.simplify(ex.truth(st, bound["resolve_packages"]))) else [])
         for k in kinds:
             msg = SV(mk_s(ex.fresh("msg", z3.StringSort())), "str")
-            outs.append(ex.raise_(st.fork(), k, msg))
+            s_r = st.fork()
+            s_r.ghost["raised_" + k] = SV(mk_b(True), "bool")
+            outs.append(ex.raise_(s_r, k, msg))
         outs.append((st, Opaque("inst:Tree", bound["expression"])))
         return outs
 
